@@ -268,9 +268,43 @@ class C17(object):
                     nd2 = [n2 for n2 in p2._lattice if keyof(self.node_key(n2, case)) == img][0]
                     a, b = reds[x], float(p2.get_red(nd2))
                     ptol = 1e-6 if case['cls'] in ('PID_WB', 'PID_MMI', 'PID_GK', 'PID_PM', 'PID_RDR') else 5e-4
+                    if case['cls'] == 'PID_GH':
+                        ptol = 2e-2     # its optimiser is randomised: the same input repeats only to about 3e-3
                     if not (abs(a - b) <= ptol or (math.isnan(a) and math.isnan(b))):
                         r.oracle_fail = 'permuting the sources by %s: red%s = %r but red%s = %r after' % (perm, x, a, img, b)
+                        if case['cls'] == 'PID_CCS':
+                            m = min(self.ccs_min_term(p._dist, pnodes[x], p._target), self.ccs_min_term(p2._dist, nd2, p2._target))
+                            r.detail = dict(r.detail or {}, ccs_min_pointwise_term=m)
+                            if m < 5e-3:
+                                r.site = 'dit.pid.PID_CCS.near-sign-change'
                         return
+
+    @staticmethod
+    def ccs_min_term(d, sources, target):
+        """Smallest |pointwise term| whose SIGN decides membership in I_ccs's sum, on the maximum-entropy distribution the
+        measure itself computes: a value near 0 means the measure is being evaluated next to one of its discontinuities."""
+        import numpy as np
+        from dit.algorithms import maxent_dist
+        from dit import modify_outcomes
+        from dit.utils import flatten, powerset
+        sources = tuple(tuple(s) for s in sources)
+        target = tuple(target)
+        rvs = list(range(len(sources) + 1))
+        d = d.coalesce(sources + (target,))
+        marginals = [rvs[:-1]] + [[i, rvs[-1]] for i in rvs[:-1]]
+        d = modify_outcomes(maxent_dist(d, marginals), lambda o: tuple(o))
+        sub_rvs = [rv for rv in powerset(rvs) if rv]
+        sub = {rv: d.marginal(rv) for rv in sub_rvs}
+        terms = []
+        for e in d.outcomes:
+            if d[e] < 1e-9:
+                continue
+            for i in rvs[:-1]:
+                terms.append(np.log2(sub[(i, rvs[-1])][(e[i], e[-1])] / (sub[(i,)][(e[i],)] * sub[(rvs[-1],)][(e[-1],)])))
+            terms.append(np.log2(d[e] / (sub[tuple(rvs[:-1])][e[:-1]] * sub[(rvs[-1],)][(e[-1],)])))
+            terms.append(np.log2(np.prod([sub[rv][tuple(e[i] for i in flatten(rv))] ** ((-1) ** len(rv)) for rv in sub_rvs])))
+        terms = [abs(float(t)) for t in terms if np.isfinite(t) and not np.isclose(t, 0.0)]
+        return min(terms) if terms else 1.0
 
     @staticmethod
     def ref_red(name, rows, ns):
